@@ -45,6 +45,11 @@ func memGen(prop string) func(rng *core.Rng, tier string) *harness.Plan {
 		}
 		p.Params["extra_keys"] = int64(extra)
 		p.Params["start_s"] = int64(20*3600 + rng.IntN(3600))
+		mint := rng.Chance(0.5)
+		if mint {
+			// after the legacy period the daily universal mint is possible
+			p.Params["start_s"] += int64(1707+rng.IntN(1500)) * 86400
+		}
 		p.Params["op_period_s"] = 10000000 // the real election ticks are off: operations are injected
 		p.Params["maxlat_ms"] = int64(5 + rng.IntN(40))
 		n := 8 + rng.IntN(10)
@@ -53,6 +58,9 @@ func memGen(prop string) func(rng *core.Rng, tier string) *harness.Plan {
 		}
 		for i := 0; i < n; i++ {
 			kinds := []string{"pledge", "accept", "remove", "ordinary", "ordinary", "restart"}
+			if mint {
+				kinds = append(kinds, "mint", "mint")
+			}
 			op := harness.Op{Kind: "mem." + kinds[rng.IntN(len(kinds))], A: int64(rng.IntN(1000)), N: rng.IntN(9), S: fmt.Sprint("m", i)}
 			p.Ops = append(p.Ops, op)
 		}
@@ -103,6 +111,11 @@ func runMembership(prop string, p *harness.Plan, after func(m *memRig, kind stri
 				variants(m, "remove")
 			}
 			done = m.remove()
+		case "mem.mint":
+			if variants != nil {
+				variants(m, "mint")
+			}
+			done = m.mint()
 		case "mem.ordinary":
 			if it := m.ordinary(int(op.A)); it != nil {
 				done = m.settle(it, 10*time.Second)
